@@ -342,6 +342,10 @@ def rule_rotaterows(ctx):
     good = len(calls) == 1 and len(calls[0].args) == 2 and all(a.op == "iter" and a.a[0].op == "param" for a in calls[0].args) and [a.a[0].a[0] for a in calls[0].args] == ["bitmaps", "roots"] and calls[0].args[0].a[1] == calls[0].args[1].a[1]
     t = s.returns[0].term
     collected = any(x is calls[0].term for x in tm.walk(t)) if calls else False
+    if calls and symeval.pc_conds(calls[0].pc):
+        # every row is rotated: a row that is skipped under a test (root 0 is the pitch class C, not "no root") keeps
+        # whatever the result buffer was initialised with
+        good = False
     g = ctx.program.func("chord.rotate_bitmap_to_root", R)
     sg = ctx.S.get(g.qual)
     if not calls and len(sg.returns) == 1:
@@ -406,7 +410,10 @@ def rule_zerohold(ctx):
         yield ob(R, f, "melody.resample_melody_series:hold-test#%d" % n, good, "held samples are selected by equality with 0 (%s)" % tm.show(c, 3) if good else "held samples are selected by the ordering test %s: negative values (pitches below the base frequency) are treated as unvoiced, so transposing the melody changes which frames are held" % tm.show(c, 3), node=node)
 
 
+
+
 RULES = [
+    ("C09.HELPERDEFAULTS", 3, common.rule_helperdefaults("C09.HELPERDEFAULTS")),
     ("C09.ZEROHOLD", 1, rule_zerohold),
     ("C09.ROTATEROWS", 2, rule_rotaterows),
     ("C09.ENCODEPURE", 9, rule_encodepure_shared),
